@@ -6,6 +6,7 @@ Line-protocol driver for the C12 model (observed / cached properties).
             expr    paths joined by '+'; a path is letters joined by '.':
                     links i (inst) k (kids.items) b (byname.items);
                     leaf v (value) a (aux) I (inst) K (kids.items) B (byname.items) T (tags.items)
+                         Xn Xi Xe (Any traits with comparison_mode none / identity / equality)
             cached  0|1          variant o (observe=) | l (depends_on=)
             static  0|1  class-level listener `_p_changed`
             ra rv   0|1  static reader on root.aux / root.value (runs before the property's observer)
@@ -39,6 +40,9 @@ def parseLink : String → Option Link
 def parseLeaf : String → Option Slot
   | "v" => some (.scalar .value)
   | "a" => some (.scalar .aux)
+  | "Xn" => some (.scalar .xn)
+  | "Xi" => some (.scalar .xi)
+  | "Xe" => some (.scalar .xe)
   | "I" => some .inst
   | "K" => some .kids
   | "B" => some .byname
@@ -133,10 +137,17 @@ def mkEnv (sh : Shape) : Env String :=
 
 /-! ### steps -/
 
+/-- `c` or `c~r`: the heap key, and (for the harness only) which of the
+equal-but-distinct representatives is assigned. -/
+def key? (s : String) : Option Int := int? ((s.splitOn "~").headD "")
+
 def parseWrite (s : String) : Option Write :=
   match (clean s).splitOn "=" with
   | ["v", x] => do pure (.scalar .value (← int? x))
   | ["a", x] => do pure (.scalar .aux (← int? x))
+  | ["xn", x] => do pure (.scalar .xn (← key? x))
+  | ["xi", x] => do pure (.scalar .xi (← key? x))
+  | ["xe", x] => do pure (.scalar .xe (← key? x))
   | ["i", t] => do pure (.inst (← optId? t))
   | ["k", l] => do pure (.kids (← natList? l))
   | ["b", d] => do pure (.byname (← dict? d))
@@ -146,11 +157,15 @@ def parseWrite (s : String) : Option Write :=
 def parseField : String → Option Field
   | "v" => some .value
   | "a" => some .aux
+  | "xn" => some .xn
+  | "xi" => some .xi
+  | "xe" => some .xe
   | _ => none
+
 
 def parseStep (s : String) : Option Step :=
   match words s with
-  | ["sv", o, f, x] => do pure (.change ⟨← o.toNat?, .scalar (← parseField f) (← int? x), false⟩)
+  | ["sv", o, f, x] => do pure (.change ⟨← o.toNat?, .scalar (← parseField f) (← key? x), false⟩)
   | ["si", o, t] => do pure (.change ⟨← o.toNat?, .inst (← optId? t), false⟩)
   | ["sk", o, l] => do pure (.change ⟨← o.toNat?, .kids (← natList? l), false⟩)
   | ["mk", o, _, l, e] => do pure (.change ⟨← o.toNat?, .kids (← natList? l), ← bool? e⟩)
